@@ -913,6 +913,58 @@ pub fn run(args: &Args) -> Report {
         rep.count("sweep:u-escapes");
     }
 
+    // g3. a backslash followed by a multi-byte character (or a 4-byte sequence above U+10FFFF) whose code point has the
+    //     low byte of an escape letter - an escape decoder that looks at one byte of the code point takes it for the
+    //     escape - in a tag string, in content, in a filter value and bare
+    if mine(&mut caseno) {
+        let (_, e2) = crate::c01::base_events();
+        let lows: [u32; 10] = [0x22, 0x2f, 0x5c, 0x62, 0x66, 0x6e, 0x72, 0x74, 0x75, 0x30];
+        let highs: [u32; 9] = [0x100, 0x700, 0x800, 0xff00, 0x1_0000, 0x1_f600, 0x10_ff00, 0x11_0000, 0x1f_ff00];
+        for hi in highs {
+            for lo in lows {
+                let cp = hi | lo;
+                // UTF-8-shaped bytes for the value, also beyond the last scalar value
+                let bytes: Vec<u8> = if cp < 0x800 {
+                    vec![0xC0 | (cp >> 6) as u8, 0x80 | (cp & 0x3F) as u8]
+                } else if cp < 0x1_0000 {
+                    vec![0xE0 | (cp >> 12) as u8, 0x80 | ((cp >> 6) & 0x3F) as u8, 0x80 | (cp & 0x3F) as u8]
+                } else {
+                    vec![0xF0 | (cp >> 18) as u8, 0x80 | ((cp >> 12) & 0x3F) as u8, 0x80 | ((cp >> 6) & 0x3F) as u8, 0x80 | (cp & 0x3F) as u8]
+                };
+                for (pre, post) in [(&[0x5cu8][..], &b""[..]), (&[b'a', 0x5c][..], &b"b"[..]), (&[0x5c, 0x5c, 0x5c][..], &b"0041"[..])] {
+                    let mut sbytes = vec![b'"'];
+                    sbytes.extend_from_slice(pre);
+                    sbytes.extend_from_slice(&bytes);
+                    sbytes.extend_from_slice(post);
+                    sbytes.push(b'"');
+                    call(&mut rep, &w, Entry::Unescape, &sbytes, 64);
+                    let t = [b"[[\"t\",".as_slice(), &sbytes, b"],[", &sbytes, b"]]"].concat();
+                    w.set_case(replay_of(Entry::TagsJson, &t, 4096));
+                    call(&mut rep, &w, Entry::TagsJson, &t, 4096);
+                    let t = [b"{\"#e\":[".as_slice(), &sbytes, b"]}"].concat();
+                    call(&mut rep, &w, Entry::FilterJson, &t, 4096);
+                    let base = render_event(&e2, &EvRender::plain(), &mut rng).0;
+                    if let Some(p) = base.windows(11).position(|x| x == b"\"content\":\"") {
+                        let mut t = base[..p + 10].to_vec();
+                        t.extend_from_slice(&sbytes);
+                        t.extend_from_slice(b",\"x\":\"");
+                        t.extend_from_slice(&base[p + 11..]);
+                        call(&mut rep, &w, Entry::EventJson, &t, big_buf(Entry::EventJson, &t));
+                    }
+                    if let Some(p) = base.windows(9).position(|x| x == b"\"tags\":[]") {
+                        let mut t = base[..p + 8].to_vec();
+                        t.extend_from_slice(b"[\"t\",");
+                        t.extend_from_slice(&sbytes);
+                        t.extend_from_slice(b"]");
+                        t.extend_from_slice(&base[p + 8..]);
+                        call(&mut rep, &w, Entry::EventJson, &t, big_buf(Entry::EventJson, &t));
+                    }
+                }
+            }
+        }
+        rep.count("sweep:escape-letter-low-bytes");
+    }
+
     // h. addresses
     for k in 0..(if thorough { 20000 } else { 2000 }) {
         if !mine(&mut caseno) {
